@@ -171,11 +171,27 @@ def main(tier: str) -> int:
         jobs.append(dict(module="IndexMaps_Gen", cfg_text=cfg(4, False, tier, maxfac=2, rich=False),
                          defs={"ShapeC": tla.tla(list(s))}, simulate=f"num={nsim}", depth=6,
                          seed=core.seed() + 1, timeout=1500))
+    # wide shapes: the reshaped modes are longer than every mode of the operand (IndexMaps_Wide)
+    wide = [((16, 10), "{{1, 160}, {7, 33, 97, 150, 160}}", "{<<160>>, <<2, 80>>, <<80, 2>>, <<4, 40>>}"),
+            ((20, 30), "{{2, 299, 600}, {1, 255, 256, 257, 511, 513}}", "{<<600>>, <<2, 300>>, <<300, 2>>}")]
+    if tier == "thorough":
+        wide.append(((3, 50, 4), "{{1, 600}, {5, 128, 129, 384, 599}}", "{<<600>>, <<150, 4>>, <<3, 200>>, <<2, 300>>}"))
+    nwide = len(jobs)
+    for s, cells, targets in wide:
+        jobs.append(dict(module="IndexMaps_Wide", cfg_text="SPECIFICATION Spec\nINVARIANT RoundTripWide\nINVARIANT LastOkWide\n",
+                         defs={"ShapeC": tla.tla(list(s)), "CellSetsC": cells, "TargetsC": targets}, timeout=1500))
     results = tla.run_many(jobs)
     behaviours: List[dict] = []
-    for r in results:
+    for k, r in enumerate(results):
         out.add_tlc(r)
-        behaviours += [b for b in r.json if b["ev"]]
+        bs = [b for b in r.json if b["ev"]]
+        if k >= nwide:
+            # narrow subscript types are part of the presentation of a sparse operand (bind.g_sparse, "strided")
+            for i, b in enumerate(bs):
+                if i % 2 == 0:
+                    b["layout"] = "strided"
+            out.notes["wide_behaviours"] = out.notes.get("wide_behaviours", 0) + len(bs)
+        behaviours += bs
     out.notes["tlc_runs"] = len(jobs)
     out.notes["shapes"] = [list(s) for s in shp]
     out.notes["behaviours"] = len(behaviours)
